@@ -271,7 +271,7 @@ class ConvTwin(ConvSim):
 def specs(tier, seed):
     rnd = random.Random(seed)
     S = []
-    topos = ['T1', 'T2', 'T3', 'T5', 'T6'] if tier == 'quick' else ['T1', 'T2', 'T3', 'T5', 'T6'] + ['S%d_%d' % (3 + i % 8, i) for i in range(24)]
+    topos = ['T1', 'T2', 'T3', 'T5', 'T6'] if tier == 'quick' else ['T1', 'T2', 'T3', 'T5', 'T6'] + ['S%d_%d' % (3 + i % 6, i) for i in range(10)]
     for t in topos:
         topo = CH.get_topology(t, seed)
         duties = [1]
@@ -285,7 +285,7 @@ def specs(tier, seed):
             dt = 2.0 ** math.floor(math.log2(0.2 / kappa))
             horizon = (3 if tier == 'quick' else rnd.choice([3, 4, 6])) / kappa
             N = max(4, int(round(horizon / dt)))
-            N = min(N, 16 if tier == 'quick' else 64)
+            N = min(N, 16 if tier == 'quick' else 32)
             levels = 2 if tier == 'quick' else 3
             for level in range(levels):
                 S.append(('conv', t, duty, N * 2 ** level, dt / 2 ** level, kappa, a, b, level, seed))
@@ -306,7 +306,7 @@ BOUNDS = {
              'of two with kappa*dt <= 0.2 and its halving dt/2, horizon up to 3/kappa (N <= 16 and 32 steps), the pair (dt, dt/2) also simulated inside one exploration for the ratio test; the initial '
              'speed, initial position and the constant load are solver variables over [-1e9, 1e9] (loads below and above '
              'stall, either sign)',
-    'thorough': '24 seeded chains of 3..10 elements, horizons 3..6/kappa, halvings dt, dt/2, dt/4 (N <= 256)',
+    'thorough': '10 seeded chains of 3..8 elements, horizons 3..6/kappa, halvings dt, dt/2, dt/4 (N <= 128)',
 }
 OUTSIDE = ('the limit dt -> 0 itself (represented by 3-4 halvings); configurations and dt are sampled, not symbolic (a symbolic '
            'kappa*dt makes the trajectory a degree-N polynomial and the oracle transcendental); a scheme that is different but still '
